@@ -532,21 +532,23 @@ def normalize_causality(case):
     rs = []
     cm = [m["method"] for m in R.parse_requests(client).messages]
     for k, r in enumerate(case["resps"]):
-        p = R.parse_responses(unhx(r["data_hex"]), [cm[k]] if k < len(cm) else None, eof=True)
+        raw = unhx(r["data_hex"])
+        lead = len(raw) - len(raw.lstrip(b"\r\n"))        # blank lines before the status line are skipped by the proxy
+        p = R.parse_responses(raw[lead:], [cm[k]] if k < len(cm) else None, eof=True)
         finals = [m for m in p.messages if not m["interim"]]
         complete = bool(finals) and finals[0]["framing"] != "eof"
-        data = unhx(r["data_hex"])
+        data = raw
         if complete:
-            data = data[:finals[0]["end"]]
+            data = raw[:lead + finals[0]["end"]]
         open_ended = (finals[0]["framing"] == "eof") if finals else (p.stop is not None and p.stop[0] == "incomplete")
         if k >= len(cm):
             # the reference parser could not read the k-th request (e.g. two spaces in the request line, which mitmproxy
             # accepts): the method — hence whether a body follows the response head — is unknown here.  Stay on the safe
             # side: deliver the head only and no FIN (a restriction of the generated schedules, not of the oracle).
-            q = R.parse_responses(unhx(r["data_hex"]), [b"HEAD"], eof=True)
+            q = R.parse_responses(raw[lead:], [b"HEAD"], eof=True)
             qf = [m for m in q.messages if not m["interim"]]
             if qf:
-                data = unhx(r["data_hex"])[:qf[0]["end"]]
+                data = raw[:lead + qf[0]["end"]]
             open_ended = False
         rs.append({"data_hex": hx(data), "close": bool(r.get("close")) and open_ended})
     c = dict(case); c["resps"] = rs
